@@ -9,7 +9,13 @@ value (gYear / gYearMonth: construction only), actions Construct, AddDTD, SubDTD
 Compare, AdjustTZ, AdjustImpl,
 Components, AddTo, MulBy, DurPlus, DurMinus, DurCompare, DurComponents; the laws d + dur - dur = d,
 d1 + (d2 - d1) = d2, comparison = order of instants, adjust preserves the instant, clamping are TLC
-invariants).
+invariants; the pure operators and laws live in spec/DateOps.tla) and spec/DateObject.tla (HISTORY machine: one
+bound value obj used by up to MaxUses operations Add, Sub, AddYM, Diff, Cmp, Adjust, AdjustAdd, AdjustDiff,
+AdjustCmp, AdjustImplAdd - action property Immutable: obj' = obj - plus SetTZ, the caller's own assignment of the
+tzinfo attribute; $timezone arguments 24 hours apart in both orders).  Every path of that graph (every incoming
+edge of the source as prefix) is driven on ONE real object: the Python object itself, the same object passed as
+variables={'d': obj} to successive select() calls, and `for $d in <literal> return (use1, use2, ...)`; after each
+use the operand is compared with the bound value (lexical form, ==, hash).
 
 Binding A: every edge  src --Act(args)--> dst  of the dumped TLC graph is replayed
   * on the Python API  (elementpath.datatypes: DateTime/DateTime10/Date/Date10/Time/DayTimeDuration/
@@ -761,7 +767,7 @@ def load_obj(name, consts, dot, output):
     groups = {}
     for s0 in g.states:
         groups.setdefault(root[s0], []).append(s0)
-    return dict(cfg=cfg, states=g.states, out=out, tree=tree, incoming=incoming, groups=groups,
+    return dict(cfg=cfg, states=g.states, out=out, tree=tree, incoming=incoming, groups=groups, root=root,
                 n_edges=len(g.edges), n_states=len(g.states))
 
 
@@ -978,13 +984,14 @@ def obj_worker(job):
     n_eval = n_paths = 0
     bindings = ['var', 'for'] + (['py'] if cfg['implicit'] == 0 else [])
     for s in sorted(M['groups'][root_sid], key=lambda x: len(tree[x])):
-        prefixes = [tree[p] + [(a, args, s)] for p, a, args in incoming[s]] or [[]]
+        # every incoming edge of s is a prefix (a state can be reached from the literal of another group)
+        prefixes = [(M['root'][p], tree[p] + [(a, args, s)]) for p, a, args in incoming[s]] or [(root_sid, [])]
         for d, a, args in out[s]:
-            for pre in prefixes:
+            for init_sid, pre in prefixes:
                 path = pre + [(a, args, d)]
                 n_paths += 1
                 for b in bindings:
-                    n_eval += replay_path(M, path, root_sid, b, fails, stats)
+                    n_eval += replay_path(M, path, init_sid, b, fails, stats)
     stats['object_paths'] = n_paths
     unmatched, hits = [], {}
     for f in fails:
@@ -1227,7 +1234,7 @@ def run(chk: core.Check) -> None:
     core.setup_repo_path()
     conf = TIERS[chk.tier]
     chk.assumptions += [
-        'spec/Calendar.tla + Durations.tla + DateChain.tla are the oracle; python datetime cross-checks the spec on years 1..9999 (every swept day, every edge within range)',
+        'spec/Calendar.tla + Durations.tla + DateOps.tla + DateChain.tla + DateObject.tla are the oracle; python datetime cross-checks the spec on years 1..9999 (every swept day, every edge within range)',
         'TLC integers are 32 bit: |year| <= 5 000 000 in the specification (day numbers must fit); the property text allows years up to 2^31',
         'implicit timezone = UTC (elementpath without a context timezone) except in the *-impl models, which pass timezone=-00:30 (quick) / +05:30 (thorough) to the dynamic context',
         'XSD 1.0 year numbering is read as the proleptic Gregorian calendar without a year 0 (-0001 = 1 BCE, a leap year)',
